@@ -95,8 +95,7 @@ def run(tier, seed):
         "sem_e models the selection-vector behaviour of FilterOperator for results that fit one 2048-row chunk (generated graphs keep every intermediate "
         "result far below that); since df57ccb it is proved equal to sem for every plan (engine_filters_agree)",
         "rows are compared as multisets, as sequences only under ORDER BY on a total key; queries with SKIP/LIMIT, OPTIONAL MATCH, two-hop patterns "
-        "(factorized chain operator), an edge property above a join, an expression outside the modelled core (dumped as EOpaque: function calls, CASE) or a computed "
-        "arithmetic column above a join (C11-K11: a later NULL in a typed vector reads back as 0) are checked by the plan correspondence and the 24-run oracle only, not against sem_e",
+        "(factorized chain operator), an edge property above a join, an expression outside the modelled core (dumped as EOpaque: function calls, CASE) are checked by the plan correspondence and the 24-run oracle only, not against sem_e",
         "no explicit transactions, labelled scans only (the store-epoch defect of C01 is kept out)",
     ]
     return chk.finish(proof)
